@@ -4,11 +4,12 @@ CONSTANTS
   Maxes = {}
   Paths = {}
   KindsOf <- NoKinds
+  OthersOf <- NoKinds
   KindIndex <- NoIndex
   Sorted = FALSE
   KnownDefects = {"C43-check-then-start"}
   Log <- LogLast
 CONSTRAINT HighWater
-INVARIANTS Inv_C43_FreshBound Inv_C43_Bound Inv_C43_Balanced Inv_C43_Quiescent
+INVARIANTS Inv_C43_WorkCovered Inv_C43_FreshBound Inv_C43_Bound Inv_C43_WorkBound Inv_C43_Balanced Inv_C43_Quiescent
 POSTCONDITION Accepted
 CHECK_DEADLOCK FALSE
